@@ -11,48 +11,61 @@ import (
 
 func init() {
 	for k, v := range map[string]externalFn{
-		"Byte":        vxByte,
-		"Bool":        vxBool,
-		"Int":         vxInt,
-		"Len":         vxLen,
-		"Choice":      vxChoice,
-		"Bytes":       vxBytes,
-		"Text":        vxText,
-		"Assume":      vxAssume,
-		"Assert":      vxAssert,
-		"Reach":       vxReach,
-		"Param":       vxParam,
-		"Logf":        vxLogf,
-		"Dir":         func(fr *frame, args []value) value { return "/vfs" },
-		"FSStamp":     vxFSStamp,
-		"FSFaults":    vxFSFaults,
-		"EnvSymbolic": vxEnvSymbolic,
-		"EnvFixed":    vxEnvFixed,
-		"EnvUnset":    vxEnvUnset,
-		"EnvPresent":  vxEnvPresent,
-		"CI":          vxCI,
-		"CISymbolic":  vxCISymbolic,
-		"Trimpath":    vxTrimpath,
-		"Freeze":      vxFreeze,
-		"Shared":      vxShared,
+		"Byte":          vxByte,
+		"Bool":          vxBool,
+		"Int":           vxInt,
+		"Len":           vxLen,
+		"Choice":        vxChoice,
+		"Bytes":         vxBytes,
+		"Text":          vxText,
+		"Assume":        vxAssume,
+		"Assert":        vxAssert,
+		"Reach":         vxReach,
+		"Param":         vxParam,
+		"Logf":          vxLogf,
+		"Dir":           func(fr *frame, args []value) value { return "/vfs" },
+		"FSStamp":       vxFSStamp,
+		"FSFaults":      vxFSFaults,
+		"EnvSymbolic":   vxEnvSymbolic,
+		"EnvFixed":      vxEnvFixed,
+		"EnvUnset":      vxEnvUnset,
+		"EnvPresent":    vxEnvPresent,
+		"CI":            vxCI,
+		"CISymbolic":    vxCISymbolic,
+		"Trimpath":      vxTrimpath,
+		"Freeze":        vxFreeze,
+		"Shared":        vxShared,
+		"FileStamp":     vxFileStamp,
+		"Symlink":       vxSymlink,
+		"Jitter":        func(fr *frame, args []value) value { return nil },
+		"Stagger":       func(fr *frame, args []value) value { return nil },
+		"RunAsSubtest":  vxRunAsSubtest,
 		"SharedGlobals": vxSharedGlobals,
-		"FrameFile":   vxFrameFile,
-		"Symbolic":    func(fr *frame, args []value) value { return true },
-		"Stdout":      func(fr *frame, args []value) value { return mkstr(fr.i.path.stdout) },
-		"Flag":        vxFlag,
-		"TestSources": vxTestSources,
-		"Oracle":      vxOracle,
-		"Yield":       func(fr *frame, args []value) value { fr.i.yield(); return nil },
-		"Preemptions": vxPreemptions,
-		"Eq":          vxEq,
-		"Chdir":       func(fr *frame, args []value) value { return nil },
-		"TestFileBase": func(fr *frame, args []value) value { return "x_test" },
-		"TestFileDir": func(fr *frame, args []value) value { return "/pkg" },
-		"YAMLAssume":  func(fr *frame, args []value) value { fr.i.path.extra["yamlassume"] = fr.i.truth(args[0]); return nil },
-		"And":         func(fr *frame, args []value) value { return norm(types.Typ[types.Bool], fr.i.tb.And(boolTerm(fr.i, args[0]), boolTerm(fr.i, args[1]))) },
-		"Or":          func(fr *frame, args []value) value { return norm(types.Typ[types.Bool], fr.i.tb.Or(boolTerm(fr.i, args[0]), boolTerm(fr.i, args[1]))) },
-		"Not":         func(fr *frame, args []value) value { return norm(types.Typ[types.Bool], fr.i.tb.Not(boolTerm(fr.i, args[0]))) },
-		"Implies":     func(fr *frame, args []value) value { return norm(types.Typ[types.Bool], fr.i.tb.Or(fr.i.tb.Not(boolTerm(fr.i, args[0])), boolTerm(fr.i, args[1]))) },
+		"FrameFile":     vxFrameFile,
+		"Symbolic":      func(fr *frame, args []value) value { return true },
+		"Stdout":        func(fr *frame, args []value) value { return mkstr(fr.i.path.stdout) },
+		"Flag":          vxFlag,
+		"TestSources":   vxTestSources,
+		"Oracle":        vxOracle,
+		"Yield":         func(fr *frame, args []value) value { fr.i.yield(); return nil },
+		"Preemptions":   vxPreemptions,
+		"Eq":            vxEq,
+		"Chdir":         func(fr *frame, args []value) value { return nil },
+		"TestFileBase":  func(fr *frame, args []value) value { return "x_test" },
+		"TestFileDir":   func(fr *frame, args []value) value { return "/pkg" },
+		"YAMLAssume":    func(fr *frame, args []value) value { fr.i.path.extra["yamlassume"] = fr.i.truth(args[0]); return nil },
+		"And": func(fr *frame, args []value) value {
+			return norm(types.Typ[types.Bool], fr.i.tb.And(boolTerm(fr.i, args[0]), boolTerm(fr.i, args[1])))
+		},
+		"Or": func(fr *frame, args []value) value {
+			return norm(types.Typ[types.Bool], fr.i.tb.Or(boolTerm(fr.i, args[0]), boolTerm(fr.i, args[1])))
+		},
+		"Not": func(fr *frame, args []value) value {
+			return norm(types.Typ[types.Bool], fr.i.tb.Not(boolTerm(fr.i, args[0])))
+		},
+		"Implies": func(fr *frame, args []value) value {
+			return norm(types.Typ[types.Bool], fr.i.tb.Or(fr.i.tb.Not(boolTerm(fr.i, args[0])), boolTerm(fr.i, args[1])))
+		},
 	} {
 		externals[vxPkg+"."+k] = v
 	}
@@ -158,6 +171,43 @@ func vxLogf(fr *frame, args []value) value {
 
 func vxFSStamp(fr *frame, args []value) value {
 	return "ops:" + strconv.Itoa(fr.i.path.fs.nMut)
+}
+
+// vxFileStamp(path): a signature of one file that changes with every mutating operation on
+// it (create, write, truncate - also when the content ends up identical).
+func vxFileStamp(fr *frame, args []value) value {
+	i := fr.i
+	dir, name := i.splitPath(args[0])
+	n := i.path.fs.find(i, dir, name)
+	if n == nil {
+		return "<missing>"
+	}
+	return "file:" + strconv.Itoa(n.id) + ":" + strconv.Itoa(n.muts)
+}
+
+// vxRunAsSubtest(f): runs f(nil) the way package testing runs a sub-test body: on a stack of
+// its own whose root is testing.tRunner (none of the harness's frames are below it).
+func vxRunAsSubtest(fr *frame, args []value) value {
+	i := fr.i
+	call(i, &frame{i: i, trunner: true}, fr.callpos, args[0], []value{(*value)(nil)})
+	return nil
+}
+
+// vxSymlink(target, link): link becomes a symbolic link to the directory target (both concrete).
+func vxSymlink(fr *frame, args []value) value {
+	i := fr.i
+	fs := i.path.fs
+	t, ok1 := args[0].(string)
+	l, ok2 := args[1].(string)
+	if !ok1 || !ok2 {
+		i.abort("Symlink: paths must be concrete")
+	}
+	if fs.links == nil {
+		fs.links = map[string]string{}
+	}
+	fs.links[cleanDir(l)] = fs.canon(t)
+	fs.logOp("symlink %s -> %s", l, t)
+	return nil
 }
 
 func vxFSFaults(fr *frame, args []value) value {
@@ -288,7 +338,7 @@ func vxSharedGlobals(fr *frame, args []value) value {
 }
 
 func vxFrameFile(fr *frame, args []value) value {
-	if fr.caller != nil && !fr.caller.goexit {
+	if fr.caller != nil && !fr.caller.goexit && !fr.caller.trunner {
 		fr.caller.fileOverride = labelOf(args[0])
 	}
 	return nil
